@@ -4,6 +4,7 @@ import (
 	verif "github.com/google/badwolf/internal/zzverif"
 	"github.com/google/badwolf/bql/table"
 	"github.com/google/badwolf/storage/memory"
+	"github.com/google/badwolf/triple"
 )
 
 // rowKeys renders every row as the tab-joined printed cells of bs (symbolic text).
@@ -184,4 +185,40 @@ func HarnessC14Relations() {
 			verif.Assert(subMultiset(ref, rowKeys(t2, qnames(bs))), "C14/monotone/rows-kept")
 		}
 	}
+}
+
+// C14 (processors and scheduling): a join whose second clause fans out (three
+// rows times two matches) over concrete data; the number of processors is a
+// parameter of the run (GOMAXPROCS is what the planner sizes its worker
+// semaphore with) and, in schedule mode, the interleaving of the producer and
+// the per-row workers is explored by the engine.  The multiset of rows must be
+// the reference join on every schedule.
+func HarnessC14Procs() {
+	n := verif.Param("ROWS", 3)
+	var ts []*triple.Triple
+	for i := 0; i < n; i++ {
+		u, f := mustNode("/u", string([]byte{'a' + byte(i)})), mustNode("/f", string([]byte{'a' + byte(i)}))
+		ts = append(ts, mustTriple(u, mustImmutable("a"), triple.NewNodeObject(f)))
+		for j := 0; j < 2; j++ {
+			ts = append(ts, mustTriple(f, mustImmutable("b"), triple.NewNodeObject(mustNode("/i", string([]byte{'a' + byte(i), '0' + byte(j)})))))
+		}
+	}
+	st, _ := newStoreWith("?g", ts)
+	q := `select ?s, ?o, ?z from ?g where { ?s "a"@[] ?o . ?o "b"@[] ?z } ;`
+	if verif.Choice("order", 2) == 1 {
+		q = `select ?s, ?o, ?z from ?g where { ?o "b"@[] ?z . ?s "a"@[] ?o } ;`
+	}
+	tbl, err := runBQL(st, q, verif.Param("CHAN", 0), verif.Param("BULK", 10))
+	verif.Reach("executed")
+	verif.Assert(err == nil, "C14/procs/query-succeeds")
+	if err != nil {
+		return
+	}
+	var want []string
+	for i := 0; i < n; i++ {
+		for j := 0; j < 2; j++ {
+			want = append(want, "/u<"+string([]byte{'a' + byte(i)})+">\t/f<"+string([]byte{'a' + byte(i)})+">\t/i<"+string([]byte{'a' + byte(i), '0' + byte(j)})+">\t")
+		}
+	}
+	verif.Assert(sameMultiset(rowKeys(tbl, []string{"?s", "?o", "?z"}), want), "C14/procs/same-rows-on-every-schedule")
 }
